@@ -15,6 +15,7 @@ import (
 	"hpfscheck/internal/core"
 	"hpfscheck/internal/load"
 	"hpfscheck/internal/rules"
+	"hpfscheck/internal/sens"
 )
 
 func main() {
@@ -117,5 +118,29 @@ func main() {
 			spec.Run(ctx)
 		}
 	}()
+	if *tier == "thorough" && *only == "" {
+		self, _ := os.Executable()
+		res, err := sens.Run(self, *prop, *repo, *verif)
+		if err != nil {
+			ctx.Hard("sensitivity run: %v", err)
+		}
+		killed, missed, skipped := 0, 0, 0
+		for _, r := range res {
+			switch r.Outcome {
+			case "killed":
+				killed++
+			case "missed":
+				missed++
+				ctx.Hard("sensitivity: variant %q is no longer reported (expected %s): the rule went blind — %s", r.Name, r.Expect, r.Detail)
+			default:
+				skipped++
+			}
+		}
+		ctx.Info("variants_seeded", len(res))
+		ctx.Info("variants_killed", killed)
+		ctx.Info("variants_skipped", skipped)
+		ctx.Info("variants", res)
+		fmt.Printf("sensitivity: %d variants, %d killed, %d missed, %d skipped\n", len(res), killed, missed, skipped)
+	}
 	os.Exit(ctx.Finish(start))
 }
